@@ -612,6 +612,12 @@ class PropBase:
                 self.correspondence()
         except Broken as b:
             self.breaks.append((b.kind, b.detail))
+        except Exception as e:
+            # the harness itself could not complete on this tree (an output shape it cannot read, a helper process that
+            # keeps dying): the correspondence is not established - handled like every other broken tie
+            import traceback
+            self.breaks.append(('correspondence', 'the correspondence run could not be completed: %r\n%s'
+                                % (e, traceback.format_exc()[-1500:])))
         if self.fallback and not self.breaks:
             # translator tie replaced by correspondence: spend more on it (fresh generator streams)
             keep = ('generated', 'obligations', 'discharged', 'theorems', 'axioms_reported_by_Print_Assumptions',
@@ -624,7 +630,7 @@ class PropBase:
                     self.correspondence()
                 except Broken as b:
                     self.breaks.append((b.kind, b.detail))
-                except (subprocess.TimeoutExpired, RuntimeError, OSError) as e:
+                except Exception as e:
                     self.breaks.append(('correspondence', 'extra correspondence pass %d aborted: %r' % (k, e)))
                 if isinstance(self.cov.get('evaluations'), int) and isinstance(total, int):
                     total += self.cov['evaluations']
